@@ -685,11 +685,12 @@ class C30(Spec):
     quick = {'runs': 2400, 'wall': 80}
     thorough = {'runs': 300000, 'wall': 900}
     rule = ('seeds below the enumeration bound enumerate: add_bits over all pairs of bit vectors of length <= 3 (quick) / 5, '
-            'find over all bit vectors of length <= 5 / 8 x targets x 7 output modes, unit_vector for all 0<=a<n, n<=9 / 17, '
+            'find over all bit vectors of length <= 5 / 8 x targets x 7 output modes, find with explicit not-found value e in (0, "0", 3, "len(x)-1", "len(x)+2", -1) x (plain, f, cs_f) over the corner vectors of length <= 4 / 6, unit_vector for all 0<=a<n, n<=9 / 17, '
             'to_bits/from_bits/trailing_zeros over all values of SecInt(4..6) ; the rest is seeded random; '
             'non-trivial = m>=2 and bytes exchanged')
 
     MODES = ('default', 'e-1', 'elast', 'raw', 'pow2', 'pow2cs', 'pair')
+    E_LIST = (0, '0', 3, 'len(x)-1', 'len(x)+2', -1)
 
     def _enum(self, tier):
         q = tier == 'quick'
@@ -702,6 +703,15 @@ class C30(Spec):
             for x in range(1 << n):
                 for a in (0, 1):
                     out.append(('find', n, x, a))
+        # find with an explicit not-found value e (int or expression in len(x)), with and without f / cs_f
+        for n in (1, 2, 3, 4) if q else (1, 2, 3, 4, 5, 6):
+            xs = range(1 << n) if n <= 2 else sorted({0, (1 << n) - 1, 1, 1 << (n - 1), (1 << n) - 2})
+            for x in xs:
+                for a in (0, 1):
+                    for e in self.E_LIST:
+                        for fm in ('eval', 'eval-pow2', 'eval-pow2cs'):
+                            if fm == 'eval' or e != -1:
+                                out.append(('find_e', n, x, (a, e, fm)))
         for n in range(1, (9 if q else 17) + 1):
             for a in range(n):
                 out.append(('unit_vector', n, a, 0))
@@ -737,6 +747,12 @@ class C30(Spec):
                 prog = G(cfg, 16, [('x', bits(x, n))], [['find', outs, ['x'], {'a': a, 'mode': mode}]], outs, snd)
             else:   # secret target bit
                 prog = G(cfg, 16, [('x', bits(x, n)), ('a', a)], [['find', outs, ['x', 'a'], {'mode': mode}]], outs, snd)
+        elif kind == 'find_e':
+            a, e, fm = y
+            if rng.random() < 0.5:
+                prog = G(cfg, 16, [('x', bits(x, n))], [['find', ['r0'], ['x'], {'a': a, 'mode': fm, 'e': e}]], ['r0'], snd)
+            else:
+                prog = G(cfg, 16, [('x', bits(x, n)), ('a', a)], [['find', ['r0'], ['x', 'a'], {'mode': fm, 'e': e}]], ['r0'], snd)
         elif kind == 'find_any':
             l = 16
             vals = [rng.randint(-5, 5) for _ in range(n)]
